@@ -8,6 +8,9 @@ TEMPLATE = common.HEAD + common.STR_SHIMS + common.TOKEN_TYPES + r'''
 //@TYPE CommandLine
 //@TYPE CommandResult
 pub struct Shell { pub previous_status: i32 }
+impl CommandResult {
+//@FN CommandResult::new
+}
 pub open spec fn unq(t: Token) -> bool { t.0@.len() == 0 }
 
 // HashMap<usize, String> used as the rewrite buffer: shims stated over an integer-keyed view
@@ -160,7 +163,7 @@ dot = Fn(S, 'do_command_substitution_for_dot', props=('C11',),
     },
 )
 
-UNIT = Unit('U-EXP3', TEMPLATE, fns=[dollar, dot],
+UNIT = Unit('U-EXP3', TEMPLATE, fns=[dollar, dot, Fn('src/types.rs', 'new', impl='CommandResult')],
             types=[TypeItem('src/types.rs', 'struct', 'Command'), TypeItem('src/types.rs', 'struct', 'CommandLine'), TypeItem('src/types.rs', 'struct', 'CommandResult')],
             props=('C11', 'C13', 'C01', 'C05'))
 TRUSTED = common.TRUSTED_STR + common.TRUSTED_TOKEN + [
